@@ -396,7 +396,11 @@ struct Extractor {
         // callee without a body anywhere in this TU (libc, intrinsics,
         // builtins): record which parameters are pointers to non-const, i.e.
         // through which the callee may store.
-        if (!FD->hasBody()) {
+        const FunctionDecl *BodyDef = nullptr;
+        bool hasB = FD->hasBody(BodyDef);
+        // fortified libc inlines (memcpy & co. under _FORTIFY_SOURCE) and
+        // intrinsics have bodies in system headers: still external to the repo
+        if (!hasB || (BodyDef && SM.isInSystemHeader(SM.getExpansionLoc(BodyDef->getLocation())))) {
           extra += ",\"ext\":1,\"wp\":[";
           bool f = true;
           for (unsigned i = 0; i < FD->getNumParams(); i++) {
